@@ -72,7 +72,7 @@ func sigImports(cases []*sigCase) []b1.ExtPkg {
 	return out
 }
 
-var sigArgTypes = []string{"int", "ext.XInt", "*MyInt"}
+var sigArgTypes = []string{"[]ext.XInt", "ext.XInt", "*MyInt"}
 var sigArgNames = []string{"count", "code", "ref"}
 
 func star(b bool, t string) string {
@@ -137,7 +137,13 @@ func sigConcretise(k int, s *sigCase) *b1.Case {
 		results = star(c.DstPtr, dstBase)
 	}
 	var notes []string
-	if c.Style == "arg" {
+	// half of the arg-style methods get their style from the interface: they live in a converter interface of their
+	// own that carries `:style arg` and sorts before interface Convergen, whose methods must stay in return style
+	group := ""
+	var groupNotes []string
+	if c.Style == "arg" && hashMod(string(js), 11, 2) == 0 {
+		group, groupNotes = "AaArgStyle", []string{":style arg"}
+	} else if c.Style == "arg" {
 		notes = append(notes, ":style arg")
 	}
 	if c.Recv {
@@ -151,7 +157,7 @@ func sigConcretise(k int, s *sigCase) *b1.Case {
 	if c.Recv {
 		fkey = srcBase[strings.LastIndex(srcBase, ".")+1:] + "." + name
 	}
-	return &b1.Case{ID: core.HashID(string(js)), JSON: js, Func: fkey, Style: c.Style, Decls: d.String(), Notes: notes,
+	return &b1.Case{ID: core.HashID(string(js)), JSON: js, Func: fkey, Style: c.Style, Decls: d.String(), Notes: notes, Group: group, GroupNotes: groupNotes,
 		Method: fmt.Sprintf("%s(%s) %s", name, strings.Join(params, ", "), results), Alone: s.Shape.Reject, Data: s}
 }
 
@@ -297,7 +303,29 @@ func sigOptions(name string, perFile int, compile bool, cases []*b1.Case) b1.Opt
 	for _, e := range imps {
 		tn = append(tn, e.Qual()+".XS", e.Qual()+".XInt")
 	}
-	return b1.Options{Name: name, PerFile: perFile, Family: "signature", Compile: compile, Imports: imps, TypeNames: tn}
+	// in isolation a method keeps a neighbour in the OTHER interface (see sigConcretise: interface-level style)
+	var ctxGrouped, ctxPlain *b1.Case
+	for _, cs := range cases {
+		if cs.Alone {
+			continue
+		}
+		if cs.Group != "" && ctxGrouped == nil {
+			ctxGrouped = cs
+		}
+		if cs.Group == "" && ctxPlain == nil {
+			ctxPlain = cs
+		}
+	}
+	iso := func(cs *b1.Case) []*b1.Case {
+		if cs.Group == "" && ctxGrouped != nil && ctxGrouped != cs {
+			return []*b1.Case{ctxGrouped}
+		}
+		if cs.Group != "" && ctxPlain != nil && ctxPlain != cs {
+			return []*b1.Case{ctxPlain}
+		}
+		return nil
+	}
+	return b1.Options{Name: name, PerFile: perFile, Family: "signature", Compile: compile, Imports: imps, TypeNames: tn, IsoContext: iso}
 }
 
 func sigCases(c *core.Ctx) []*b1.Case {
@@ -306,6 +334,9 @@ func sigCases(c *core.Ctx) []*b1.Case {
 	for i, s := range ss {
 		cases = append(cases, sigConcretise(i, s))
 	}
+	// mix the styles within every file: the methods of interface Convergen must keep their own (default) style
+	// next to an interface that sets another one for its methods
+	sort.SliceStable(cases, func(i, j int) bool { return cases[i].ID < cases[j].ID })
 	return cases
 }
 
@@ -342,6 +373,8 @@ type hookCfg struct {
 	HErr    bool   `json:"hErr"`
 	HExtra  string `json:"hExtra"`
 	Kind    string `json:"kind"`
+	ArgAny  bool   `json:"argAny"`
+	Shared  bool   `json:"shared"`
 }
 type hookCall struct {
 	Name string   `json:"name"`
@@ -403,6 +436,8 @@ func hookConcretise(k int, h *hookCase) *b1.Case {
 		extra = ", a0 int"
 	case "wrong":
 		extra = ", a0 string, a1 int"
+	case "wider":
+		extra = ", a0 interface{}, a1 string"
 	}
 	ret, body := "", "{}"
 	if c.HErr {
@@ -434,7 +469,9 @@ func hookConcretise(k int, h *hookCase) *b1.Case {
 	}
 	h.hookName = hname
 	params := []string{star(c.SrcPtr, srcBase)}
-	if c.Nargs == 2 {
+	if c.Nargs == 2 && c.ArgAny {
+		params = append(params, "interface{}", "string")
+	} else if c.Nargs == 2 {
 		params = append(params, "int", "string")
 	}
 	results := star(c.DstPtr, dstBase)
@@ -454,14 +491,46 @@ func hookConcretise(k int, h *hookCase) *b1.Case {
 	if c.Recv {
 		fkey = strings.TrimPrefix(srcBase, "ext.") + "." + name
 	}
+	method := fmt.Sprintf("%s(%s) %s", name, strings.Join(params, ", "), results)
+	if c.Shared {
+		// a companion method that sorts before this one and that the hook fits by construction:
+		// operands, additional parameters and error result are the hook's own
+		cp := []string{hs}
+		switch c.HExtra {
+		case "all":
+			cp = append(cp, "int", "string")
+		case "fewer":
+			cp = append(cp, "int")
+		case "wrong":
+			cp = append(cp, "string", "int")
+		case "wider":
+			cp = append(cp, "interface{}", "string")
+		}
+		cres := hd
+		if c.HErr {
+			cres = "(" + hd + ", error)"
+		}
+		var own []string
+		for _, n := range notes {
+			own = append(own, "\t// "+n)
+		}
+		method = fmt.Sprintf("G%d(%s) %s\n%s\n\t%s", k, strings.Join(cp, ", "), cres, strings.Join(own, "\n"), method)
+		notes = []string{":" + c.Which + "process " + hname}
+	}
 	return &b1.Case{ID: core.HashID(string(js)), JSON: js, Func: fkey, Style: c.Style, Decls: d.String(), Notes: notes,
-		Method: fmt.Sprintf("%s(%s) %s", name, strings.Join(params, ", "), results), Alone: h.Fit.Reject, Data: h}
+		Method: method, Alone: h.Fit.Reject, Data: h}
 }
 
 func hookDescribe(h *hookCase) string {
 	c := h.Cfg
 	m := fmt.Sprintf("method[style=%s src=%s dst=%s err=%v args=%d recv=%v]", c.Style, star(c.SrcPtr, "S"), star(c.DstPtr, "D"), c.RetErr, c.Nargs, c.Recv)
 	hk := fmt.Sprintf(":%sprocess hook[%s dst=%s src=%s err=%v extra=%s]", c.Which, c.Kind, star(c.HDstPtr, "D"), star(c.HSrcPtr, "S"), c.HErr, c.HExtra)
+	if c.ArgAny {
+		m = strings.Replace(m, "args=2", "args=2(interface{}, string)", 1)
+	}
+	if c.Shared {
+		hk += " shared with an earlier method it fits"
+	}
 	return m + " " + hk
 }
 
